@@ -32,7 +32,13 @@ impl DeError {
 		}
 	}
 	pub(crate) fn unexpected_eof() -> Self {
-		Self::new("Unexpected end of slice while deserializing")
+		// That's the same error as the one we get when reading from an `impl BufRead`
+		// that has no more data: in both cases there's no way that reading further
+		// could work
+		Self::custom_io(
+			"Unexpected end of slice while deserializing",
+			std::io::ErrorKind::UnexpectedEof.into(),
+		)
 	}
 	pub(crate) fn io(io_error: std::io::Error) -> Self {
 		Self::custom_io(
